@@ -7,7 +7,7 @@
 From Coq Require Import ZArith List Bool Sorted Permutation.
 From Verif Require Import Reloc.RelocModel Sections.SectionModel Sections.ChunkModel Sections.ChunkProofs Sections.JitReloc
   Sections.JitRelocProofs Sections.SectionProofs Sections.SectionTable Sections.CopyProofs
-  Sections.ShrinkProofs Sections.StableProofs Sections.CoverProofs Sections.SectionSummary Sections.SectionExamples.
+  Sections.ShrinkProofs Sections.StableProofs Sections.CoverProofs Sections.SettleProofs Sections.SectionSummary Sections.SectionExamples.
 Import ListNotations.
 Local Open Scope Z_scope.
 
@@ -28,7 +28,7 @@ Print Assumptions C10_new_section_position.
 (* ---- flatten: offsets respect alignment ---- *)
 Theorem C10_offsets_aligned : forall h h', wf_holder h -> flatten h = (EOk, h') ->
   forall s, In s h' -> real_size s <> 0 -> aligned (soff s) (salign s).
-Proof. exact flatten_offsets_aligned. Qed.
+Proof. exact final_offsets_aligned. Qed.
 Print Assumptions C10_offsets_aligned.
 
 (* ... and no more padding than the alignment needs: the offset assigned to a non-empty section lies less than one
@@ -40,17 +40,25 @@ Proof. exact assign_aligned_minimal. Qed.
 Print Assumptions C10_padding_minimal.
 
 Theorem C10_flatten_keeps_assigned_offsets : forall h h', wf_holder h -> flatten h = (EOk, h') ->
-  map soff h' = map soff (assign 0 h).
-Proof. exact flatten_keeps_assigned_offsets. Qed.
+  Forall2 (fun a s => real_size s <> 0 -> soff s = soff a) (assign 0 h) h'.
+Proof. exact final_keeps_assigned_offsets. Qed.
 Print Assumptions C10_flatten_keeps_assigned_offsets.
+
+(* an EMPTY section sits where the next non-empty section starts — or at the end of the code (code_size) if none follows:
+   never inside another section's bytes, and exactly where any later flatten() leaves it (C10_flatten_idempotent).
+   (Empty sections are deliberately not aligned by the code: no padding is spent on them.) *)
+Theorem C10_empty_section_placed : forall h h', wf_holder h -> flatten h = (EOk, h') ->
+  forall l1 s l2, h' = l1 ++ s :: l2 -> real_size s = 0 ->
+  soff s = match fne_off l2 with Some o => o | None => code_size h' end.
+Proof. exact final_empty_placed. Qed.
+Print Assumptions C10_empty_section_placed.
 
 (* ---- flatten: order and disjointness for ANY two sections a before b (by-order sequence): offsets are monotone, a's
    buffer ends before b starts, and two non-empty sections do not overlap even with a's size extended over the padding ---- *)
 Theorem C10_no_overlap : forall h h', wf_holder h -> flatten h = (EOk, h') ->
   forall l1 a l2 b, h' = l1 ++ a :: l2 -> In b l2 ->
-  soff a <= soff b /\ soff a + sbsize a <= soff b /\
-  (real_size a <> 0 -> real_size b <> 0 -> soff a + real_size a <= soff b).
-Proof. exact flatten_no_overlap. Qed.
+  soff a <= soff b /\ soff a + sbsize a <= soff b /\ (real_size a <> 0 -> soff a + real_size a <= soff b).
+Proof. exact final_no_overlap. Qed.
 Print Assumptions C10_no_overlap.
 
 (* ---- code_size = end of the last section, nothing reaches beyond it, and the estimate before flatten equals it ---- *)
@@ -58,7 +66,7 @@ Theorem C10_code_size_is_end : forall h h', wf_holder h -> flatten h = (EOk, h')
   (forall l1 s, h' = l1 ++ [s] -> code_size h' = soff s + real_size s) /\
   (forall s, In s h' -> 0 <= soff s /\ soff s + real_size s <= code_size h' /\ code_size h' < W64) /\
   code_size h' = code_size h.
-Proof. exact code_size_is_end_all. Qed.
+Proof. exact final_code_size_is_end. Qed.
 Print Assumptions C10_code_size_is_end.
 
 (* overflow handling: flatten fails exactly when pass 1 leaves 64 bits, changes nothing then, and code_size says SIZE_MAX;
@@ -73,18 +81,13 @@ Print Assumptions C10_code_size_overflow.
    kPadSectionBuffer zero-fills every gap) *)
 Theorem C10_padding_owned : forall h h', wf_holder h -> flatten h = (EOk, h') ->
   forall l1 s l2, h' = l1 ++ s :: l2 -> real_size s <> 0 -> lend_ne 0 l1 = soff s.
-Proof. exact flatten_prefix_end. Qed.
+Proof. exact final_padding_owned. Qed.
 Print Assumptions C10_padding_owned.
 
-(* ---- a second flatten: every non-empty section keeps offset and sizes, code_size stays, and from the second result on
-   flatten is the identity.  (An EMPTY section's offset may move to the end of its extended predecessor: same_ne.)
-   The API documents "should never be called more than once"; the unrepaired tree moved non-empty sections (refuted below). ---- *)
-Theorem C10_flatten_stable : forall h h', wf_holder h -> flatten h = (EOk, h') ->
-  exists h'', flatten h' = (EOk, h'') /\
-    Forall2 (fun s s2 => (real_size s <> 0 -> s2 = s) /\ (real_size s = 0 -> exists o, s2 = set_off s o)) h' h'' /\
-    code_size h'' = code_size h' /\ flatten h'' = (EOk, h'').
-Proof. exact flatten_stable. Qed.
-Print Assumptions C10_flatten_stable.
+(* ---- idempotence in full: flatten (flatten h) = flatten h, for every section, empty ones included ---- *)
+Theorem C10_flatten_idempotent : forall h h', wf_holder h -> flatten h = (EOk, h') -> flatten h' = (EOk, h').
+Proof. exact flatten_idempotent. Qed.
+Print Assumptions C10_flatten_idempotent.
 
 (* ---- copy_flattened_data ---- *)
 (* refusal: kInvalidArgument exactly when some section's buffer does not fit into dst_size (too_small), kOk otherwise;
@@ -116,7 +119,7 @@ Theorem C10_copy_exact : forall h h' mem dst ps pt mem',
   (pt = true -> forall c, ends ps dst h' 0 <= c < dst -> cell mem' c = 0) /\
   (forall c, 0 <= c -> (forall s, In s h' -> ~ (soff s <= c < wend ps dst s)) -> (pt = false \/ c < ends ps dst h' 0) ->
              cell mem' c = cell mem c).
-Proof. exact flatten_copy_exact. Qed.
+Proof. exact final_copy_exact. Qed.
 Print Assumptions C10_copy_exact.
 
 (* with kPadSectionBuffer and dst_size >= code_size every cell below code_size lies in the written region of some section
@@ -125,7 +128,7 @@ Print Assumptions C10_copy_exact.
 Theorem C10_image_total : forall h h' dst, wf_holder h -> flatten h = (EOk, h') -> code_size h' <= dst ->
   forall c, 0 <= c < code_size h' ->
   exists s, In s h' /\ soff s <= c < wend true dst s /\ wend true dst s = soff s + real_size s.
-Proof. exact flatten_image_total. Qed.
+Proof. exact final_image_total. Qed.
 Print Assumptions C10_image_total.
 
 (* JitRuntime::_add without relocations (model jit_add): fails with kTooLarge exactly on overflow, with kNoCodeGenerated
@@ -183,7 +186,7 @@ Proof. exact relocate_holder_ok. Qed.
 Print Assumptions C10_relocate_holder_ok.
 
 (* a patch touches only the value word and the two opcode bytes in front of it, and never changes the buffer length *)
-Theorem C10_patch_touches_only_site : forall data e o, 2 <= e_off e + e_lead e -> 0 <= OffsetModel.vsize (e_fmt e) ->
+Theorem C10_patch_touches_only_site : forall data e o, 0 <= e_off e + e_lead e -> 0 <= OffsetModel.vsize (e_fmt e) ->
   e_off e + e_lead e + OffsetModel.vsize (e_fmt e) <= Z.of_nat (length data) ->
   length (patch_site data e o) = length data /\
   forall c, 0 <= c -> ~ (e_off e + e_lead e - 2 <= c < e_off e + e_lead e + OffsetModel.vsize (e_fmt e)) ->
@@ -229,8 +232,20 @@ Theorem C10_reachable_ids_unique : forall h, reachable h -> NoDup (map sid h) /\
 Proof. exact reachable_ids_unique. Qed.
 Print Assumptions C10_reachable_ids_unique.
 
+(* totality for the RELOCATED holder: every cell below the final size (estimate - reduction) lies in [offset, offset + real size)
+   of a section of the relocated holder — with C10_jit_add_reloc_image / C10_relocated_copy_exact (data bytes, zero tails) no
+   stale byte survives inside the installed image.  (The table's buffer must not exceed its reservation: it is empty before
+   relocation.) *)
+Theorem C10_relocated_image_total : forall h0 h tab calls base h2 red,
+  wf_holder h0 -> flatten h0 = (EOk, h) -> NoDup (map sid h) -> (forall s, In s h -> 0 <= sid s) ->
+  (forall s, In s h -> Some (sid s) = tab -> sbsize s <= svsize s) ->
+  relocate_holder h tab calls base = inl (h2, red) ->
+  forall c, 0 <= c < code_size h - red -> exists s2, In s2 h2 /\ soff s2 <= c < soff s2 + real_size s2.
+Proof. exact relocated_image_total. Qed.
+Print Assumptions C10_relocated_image_total.
+
 Theorem C10_example_relocate : exists h2,
-  relocate_holder ex_rel (Some 1) [(0, 1311768467463790320); (6, 4198400)] 4194304 = inl (h2, 8) /\
+  relocate_holder ex_rel (Some 1) [SCall 0 1311768467463790320; SCall 6 4198400] 4194304 = inl (h2, 8) /\
   map sdata h2 = [ [255; 21; 10; 0; 0; 0; 64; 232; 244; 15; 0; 0]; [240; 222; 188; 154; 120; 86; 52; 18] ] /\
   map sbsize h2 = [12; 8] /\ map svsize h2 = [16; 8] /\ code_size h2 = 24.
 Proof. exact ex_relocate. Qed.
@@ -242,7 +257,7 @@ Theorem C10_estimate_monotone : forall h h' l1 t used, wf_holder h -> flatten h 
   (forall x, In x l1 -> sid x <> sid t) -> 0 <= used -> sbsize t <= used <= svsize t ->
   exists h'' r, shrink_last h' (sid t) used = (h'', r) /\ r = svsize t - used /\ 0 <= r /\
                 code_size h'' = code_size h' - r /\ code_size h'' <= code_size h'.
-Proof. exact estimate_monotone. Qed.
+Proof. exact final_estimate_monotone. Qed.
 Print Assumptions C10_estimate_monotone.
 
 (* the address table NOT last (or absent): its buffer becomes the used slots wherever it sits, the reservation (virtual size)
@@ -301,6 +316,14 @@ Theorem C10_pinned_flatten_idempotent_refuted : exists h h' h'',
 Proof. exact pinned_flatten_not_idempotent_refuted. Qed.
 Print Assumptions C10_pinned_flatten_idempotent_refuted.
 
+(* the residual defect after that repair (routed from C03/C04): with the forward loop only (flatten_mid) an EMPTY section — and
+   every label bound in it — moves on the second call (66 -> 72); the final flatten puts it at 72 at once and is a fixed point *)
+Theorem C10_mid_flatten_idempotent_refuted : exists h h' h'',
+  flatten_mid h = (EOk, h') /\ flatten_mid h' = (EOk, h'') /\ map soff h' = [0; 66; 72] /\ map soff h'' = [0; 72; 72] /\
+  exists hf, flatten h = (EOk, hf) /\ map soff hf = [0; 72; 72] /\ flatten hf = (EOk, hf).
+Proof. exact mid_flatten_not_idempotent_refuted. Qed.
+Print Assumptions C10_mid_flatten_idempotent_refuted.
+
 (* code_size of the unrepaired tree does not notice align_up wrapping around 2^64 *)
 Theorem C10_pinned_code_size_overflow_refuted : exists h,
   wf_holder h /\ flatten h = (ETooLarge, h) /\ code_size_pinned h = 5 /\ code_size h = SIZE_MAX.
@@ -309,7 +332,7 @@ Print Assumptions C10_pinned_code_size_overflow_refuted.
 
 (* ---- satisfiability of the hypotheses ---- *)
 Theorem C10_example_reachable_flatten : reachable ex_h3 /\
-  exists h', flatten ex_h3 = (EOk, h') /\ map sid h' = [0; 2; 1] /\ map soff h' = [0; 10; 64] /\ code_size h' = 104.
+  exists h', flatten ex_h3 = (EOk, h') /\ map sid h' = [0; 2; 1] /\ map soff h' = [0; 64; 64] /\ code_size h' = 104.
 Proof. exact (conj ex_reachable ex_flatten). Qed.
 Print Assumptions C10_example_reachable_flatten.
 
@@ -330,3 +353,11 @@ Theorem C10_example_estimate : exists h' l1 t,
   code_size (fst (shrink_last h' (sid t) 0)) = 8 /\ code_size (fst (shrink_last h' (sid t) 8)) = 16.
 Proof. exact ex_estimate. Qed.
 Print Assumptions C10_example_estimate.
+
+(* embed_label (RelocType::kRelToAbs) through the same path: the embedded words are base + section offset + label offset; the label of
+   the EMPTY section 2 designates the place where the next non-empty section (the table) starts *)
+Theorem C10_example_relocate_abs : exists h2,
+  relocate_holder ex_abs (Some 3) [SAbs 0 1 5; SAbs 8 2 0] 4194304 = inl (h2, 8) /\
+  map sdata h2 = [ [21; 0; 64; 0; 0; 0; 0; 0; 24; 0; 64; 0; 0; 0; 0; 0]; [1; 2; 3; 4; 5]; []; [] ].
+Proof. exact ex_relocate_abs. Qed.
+Print Assumptions C10_example_relocate_abs.
